@@ -31,7 +31,7 @@ SPEC = {
 
 
 def generate(rng, tier, shard, nshards, mon):
-    n = (600 if tier == "quick" else 10000) // nshards
+    n = (1600 if tier == "quick" else 14000) // nshards
     lo, hi = (5, 30) if tier == "quick" else (5, 100)
     for _ in range(n):
         init = history.gen_init(rng, want_tensor=True, max_depth=4)
